@@ -392,6 +392,31 @@ static void typedmap_exec(Ctx &ctx)
 			b = jwt_builder_new();
 		}
 		jwt_builder_enable_iat(b, 0);
+		// the builder already holds members of every type under the names the history uses: what the
+		// callback does to its per-token copy must never show up in the builder
+		{
+			jwt_value_t jv;
+			Armed a;
+			for (int h = 0; h < 2; h++) {
+				jv_set_str(&jv, "a", "builder-a", 1);
+				h ? jwt_builder_header_set(b, &jv) : jwt_builder_claim_set(b, &jv);
+				jv_set_int(&jv, "b", 4711, 1);
+				h ? jwt_builder_header_set(b, &jv) : jwt_builder_claim_set(b, &jv);
+				jv_set_bool(&jv, "c", 1, 1);
+				h ? jwt_builder_header_set(b, &jv) : jwt_builder_claim_set(b, &jv);
+				jv_set_json(&jv, "ab", "{\"in\":{\"deep\":[1,2,3]}}", 1);
+				h ? jwt_builder_header_set(b, &jv) : jwt_builder_claim_set(b, &jv);
+			}
+		}
+		std::string pre[2];
+		for (int h = 0; h < 2; h++) {
+			jwt_value_t jv;
+			jv_get(&jv, JWT_VALUE_JSON, NULL);
+			int rc = h ? jwt_builder_header_get(b, &jv) : jwt_builder_claim_get(b, &jv);
+			pre[h] = rc == JWT_VALUE_ERR_NONE && jv.json_val ? jv.json_val : "?";
+			if (jv.json_val)
+				sim_harness_free(jv.json_val);
+		}
 		jwt_builder_setcb(b, map_cb, NULL);
 		g_cb_run = &mr;
 		g_cb_plan = &plan;
@@ -402,10 +427,13 @@ static void typedmap_exec(Ctx &ctx)
 		for (int h = 0; h < 2; h++) {
 			jv_get(&jv, JWT_VALUE_JSON, NULL);
 			int rc = h ? jwt_builder_header_get(b, &jv) : jwt_builder_claim_get(b, &jv);
-			if (rc != JWT_VALUE_ERR_NONE || !jv.json_val || strcmp(jv.json_val, "{}") != 0)
-				ctx.violation("C10", "callback-leaks-into-builder", h ? "headers" : "claims",
-					      strf("after generate the builder's %s are %s, expected {} (callback edits must affect only that token)", h ? "headers" : "claims",
-						   jv.json_val ? jv.json_val : "(null)"));
+			if (rc != JWT_VALUE_ERR_NONE || !jv.json_val || pre[h] != jv.json_val) {
+				// a set/replace/delete on the token object changed another map (the builder's): not a map
+				ctx.violation("C15", "callback-edit-reaches-builder", h ? "headers" : "claims",
+					      strf("after generate the builder's %s are %s, before it they were %s (operations on the callback's token object must not reach the builder)",
+						   h ? "headers" : "claims", jv.json_val ? jv.json_val : "(null)", pre[h].c_str()));
+				ctx.violation("C10", "callback-leaks-into-builder", h ? "headers" : "claims", "builder changed by a generate callback");
+			}
 			if (jv.json_val)
 				sim_harness_free(jv.json_val);
 		}
